@@ -109,7 +109,12 @@ func GenChallenge(r *core.Rand, i int) []byte {
 			RedemptionNonce: r.Bytes(r.Of(0, 32)),
 			OriginInfo:      []string{string(alnum(r, r.IntN(30)))},
 		}
-		return tc.Marshal()
+		enc := tc.Marshal()
+		if i%2 == 0 {
+			// a well-formed TokenChallenge followed by further bytes: still just bytes to be hashed as they are
+			enc = append(enc, r.Bytes(1+r.IntN(5))...)
+		}
+		return enc
 	}
 	return r.Bytes(r.IntN(r.Of(40, 300, 4096)))
 }
